@@ -7,6 +7,7 @@ Rip/Cex/C01.lean. Regenerated fragment: Rip/Gen/EffectOrder.lean.
 import Rip.Lemmas.StoreLTS
 import Rip.Cex.C01
 import Rip.Gen.EffectOrder
+import Rip.Lemmas.Emitters
 namespace Rip.Props.C01
 open Rip.StoreLTS
 
@@ -87,5 +88,22 @@ theorem gen_creations_are_locked :
 /-- the log file has its own mutex around body + newline + flush (frames never interleave) -/
 theorem gen_log_append_atomic :
     Rip.Gen.orderOf 30 = [.lock 5, .fsWrite, .fsWrite, .fsFlush, .unlock 5] := by decide
+
+/-! ### session and task streams -/
+
+/-- **task streams (and session streams, the one-emitter case)**: for any number of concurrent
+emitters on one stream (stdout pump, stderr pump, control frames), any frame counts and EVERY
+interleaving of the effects of the emitter, the frames reach the log (recorded together with the log
+append, inside the seq lock) as seq 0,1,2,… in order — no gap, no duplicate. The emitter's effect
+order and the nesting of its two locks are re-proved on the regenerated source in
+`Rip.Props.C06.gen_task_emit_seq_critical`. -/
+theorem emitted_streams_numbered (counts sched : List Nat) :
+    ∃ k, (Rip.Emitters.run true counts sched).recorded = List.range k :=
+  Rip.Emitters.recorded_in_order counts sched
+
+theorem emitted_streams_complete (counts sched : List Nat)
+    (hd : Rip.Emitters.allDone (Rip.Emitters.run true counts sched) = true) :
+    (Rip.Emitters.run true counts sched).recorded = List.range counts.sum :=
+  (Rip.Emitters.complete counts sched hd).2
 
 end Rip.Props.C01
